@@ -681,6 +681,10 @@ def derive_facts(desc, r):
         ws = []
         for actor, sig, kind in m["watch"]:
             f = "%s.%s.%s.csv" % (m["name"], actor, sig)
+            if actor == "" and f in csv and any(len(l.split()) >= 2 and l.split()[1].startswith('"') for l in csv[f].splitlines()):
+                # a variable has no declared type: one that received non-numeric samples (mood, a string or an
+                # array) is an event curve — labelled points on their own lane —, a numeric one a line
+                kind = "e"
             ws.append((actor, sig, kind, f in csv and bool(csv[f].strip())))
         audited = ("audit-%s.csv" % m["name"]) in csv and bool(csv["audit-%s.csv" % m["name"]].strip())
         aud.append({"name": m["name"], "only_helps": m["only_helps"], "watch": ws, "audited": audited,
